@@ -234,6 +234,35 @@ def run(chk):
     chk.ob("annotations/defn with annotated parameter, default and return annotation equals CPython's parse; their statements precede the def",
            g == w and pre == ["S[A2]", "S[d0]"], "cpython-oracle", "proved", detail=f"{g}\n{w}\n{pre}")
 
+    # truth-blindness: a default that is a falsy literal model (0, "", [] ...) is a default like any other - for every parameter kind
+    from hy.models import Bytes, Dict as HDict, Float, Tuple as HTuple
+    falsy = {"0": lambda: Integer(0), "0.0": lambda: Float(0.0), '""': lambda: String(""), 'b""': lambda: Bytes(b""), "[]": lambda: List([]),
+             "{}": lambda: HDict([]), "()": lambda: HTuple([]), "False": lambda: S("False"), "None": lambda: S("None")}
+    shapes_ll = {
+        "positional-only": (lambda d: List([List([S("ua"), d]), S("/")]), "ua={}, /"),
+        "plain": (lambda d: List([List([S("ua"), d])]), "ua={}"),
+        "after a required one": (lambda d: List([S("ub"), List([S("ua"), d])]), "ub, ua={}"),
+        "keyword-only after bare *": (lambda d: List([S("*"), List([S("uk"), d])]), "*, uk={}"),
+        "keyword-only after #* rest": (lambda d: List([E(S("unpack-iterable"), S("ur")), List([S("uk"), d])]), "*ur, uk={}"),
+        "keyword-only next to a required one": (lambda d: List([S("*"), S("uq"), List([S("uk"), d]), S("uz")]), "*, uq, uk={}, uz"),
+        "annotated keyword-only": (lambda d: List([S("*"), E(S("annotate"), List([S("uk"), d]), S("int"))]), "*, uk: int={}"),
+    }
+    for sname, (mk, pytext) in shapes_ll.items():
+        for fname, fmk in falsy.items():
+            for head in ("fn", "defn"):
+                pre = [S("uf")] if head == "defn" else []
+                out = sx.run_rule(E(S(head), *pre, mk(fmk()), Tok("body", "SE")))
+                chk.case(("falsy-default", sname, fname, head))
+                name = f"defaults/falsy literal default {fname}/{sname}/{head}: the arguments node equals CPython's"
+                if not out.ok:
+                    chk.ob(name, False, "cpython-oracle", "proved", detail=repr(out.exc)[:200])
+                    continue
+                node = next((s_ for s_ in out.result.stmts if isinstance(s_, (ast.FunctionDef, ast.AsyncFunctionDef))), None) or out.result._expr
+                want = ast.parse(f"def f({pytext.format(fname)}): pass").body[0].args
+                g, w = dump(node.args), ast.dump(want)
+                chk.ob(name, g == w, "cpython-oracle", "proved", detail=None if g == w else f"emitted {g}\n  CPython {w}",
+                       replay=None if g == w else {"confirmed": True, "input": hy.repr(E(S(head), *pre, mk(fmk()), S("None"))).lstrip("'"),
+                                                   "observed": g, "expected": w})
     # implicit return / async generator / docstring
     def fdef(form):
         o = sx.run_rule(form)
